@@ -10,7 +10,8 @@ Every theorem quantifies over **all** well-formed configurations `c` — adapter
 function, outcome kinds, any number `c.n - 1` of promise invocations / destructor agents on other threads with arbitrary
 kinds (`c.rk`), resolution inside the factory (`c.pre`: "already resolved at registration"), by the registering thread
 afterwards (`c.selfRes`) or by the other agents (concurrently) — and over **all** schedules (`Reach`: any list of agent
-ids, by induction).  The allocator (heap / storage) only names where the helper block comes from: `allocs`/`frees`
+ids, by induction).  Re-use of the member-object adapters for any number of successive operations (every combination of
+timings) is `c18_reuse_reach` / `c18_once_per_operation` at the end.  The allocator (heap / storage) only names where the helper block comes from: `allocs`/`frees`
 count blocks of whichever allocator was chosen.  `Pre c` = callbacks do not throw (the documented contract); it is
 needed exactly where the statement talks about the number of *callback* invocations of `callback_await`.
 -/
@@ -156,8 +157,8 @@ theorem c18_result_stable (hwf : c.WF) (hr : Reach c s) (t : Nat) (hs : s.slot =
       have := (h.unpub hpc).2.1
       rw [hwf.mkp ha, hs] at this; simp at this
     simp only; unfold startStep
-    cases ha : c.adapter <;> simp [ha, hs, casStep, prep, setPc] at hnm ⊢
-  | gCas => simp only; unfold casStep; rw [hs]; simp [setPc, hs]
+    cases ha : c.adapter <;> simp [ha, hs, casStep, prep, setPc, h.nxt_null, Adapter.allocates] at hnm ⊢
+  | gCas => simp only; unfold casStep; simp [setPc, hs, h.nxt_null]
   | gParked => simp only; unfold contReg claimStep; cases c.selfRes <;> simp [setPc, hs] <;> split <;> simp [hs]
   | rArrive => simp only; unfold claimStep; split <;> (try split) <;> simp [setPc, hs]
   | rBlocked => simp only; unfold claimStep; split <;> simp [setPc, hs]
@@ -262,9 +263,9 @@ theorem c18_already_resolved (hwf : c.WF) (hr : Reach c s) (hs : s.slot = Slot.r
       rw [hwf.mkp ha, hs] at this; simp at this
     unfold astep; rw [hp]; simp only
     unfold startStep
-    cases ha : c.adapter <;> simp [ha, hs, casStep, prep, setPc, htok] at hnm ⊢
+    cases ha : c.adapter <;> simp [ha, hs, casStep, prep, setPc, htok, h.nxt_null, Adapter.allocates] at hnm ⊢
   · unfold astep; rw [hp]; simp only
-    unfold casStep; rw [hs]; simp [setPc, htok, hs]
+    unfold casStep; simp [setPc, htok, hs, h.nxt_null]
 
 /-- **Parked, then resumed by the resolver.**  A successful subscription parks the completion in the slot; the one
 exchange that finds it there (`resolve()` of the winner) hands it to that agent, who then holds it alone. -/
@@ -326,6 +327,11 @@ theorem c18_conv_source_dropped (hrd : c.convReads = true) :
     convArg c Outcome.none = none ∧ convRes c Outcome.none = OuterRes.canceledExc := by
   simp [convRes, convArg, hrd]
 
+/-- after every step of every run the adapter's awaiter node is unlinked again (`_next = nullptr`): whether the
+subscription was refused, or the node was parked and detached by the resolver — the helper can be re-armed -/
+theorem c18_rearmed (hwf : c.WF) (hr : Reach c s) : s.nxt = Slot.null :=
+  (reach_inv hwf hr).nxt_null
+
 theorem dtorReady_of (hpub : s.published = true)
     (h0 : c.selfRes.isSome = true → s.pc 0 = Pc.done)
     (hres : ∀ i, i < c.n → i ≠ 0 → (c.rk i).isSome = true → s.pc i = Pc.done) : dtorReady c s = true := by
@@ -384,6 +390,50 @@ theorem c18_no_hang (hwf : c.WF) (hr : Reach c s) (hnd : ¬ AllDone c s) : ∃ t
     cases hpc : s.pc 0 <;> simp_all [pcOK, isDt]
 
 end
+
+/-! ## Re-use of the member-object adapters: exactly once *per awaited operation*
+
+`future_conv` and `call_fn_future_awaiter` objects are re-armed with `<<` for one operation after the other; the awaiter
+node (and its `_next` link, the expected value of the next subscribing CAS) is the same object every time.  `runOps`
+chains any number of operations — each with its own adapter configuration, outcome kinds, agents, timing (already
+resolved / same thread later / concurrent) and schedule — through that link. -/
+
+/-- every operation of every sequence is a run of the single-operation machine from its standard initial state (the
+link it inherits is null), so each of the theorems above holds for each operation separately -/
+theorem c18_reuse_reach (ops : List OpRun) (hwf : ∀ o ∈ ops, o.c.WF) :
+    Pointwise (fun o s => Reach o.c s) ops (runOps Slot.null ops) := by
+  suffices h : ∀ nx, nx = Slot.null → Pointwise (fun o s => Reach o.c s) ops (runOps nx ops) from h _ rfl
+  induction ops with
+  | nil => intro nx _; exact Pointwise.nil
+  | cons o rest ih =>
+    intro nx hnx
+    subst hnx
+    have hr : Reach o.c (run o.c (initWith o.c Slot.null) o.sched) := ⟨o.sched, rfl⟩
+    have hw := hwf o (by simp)
+    unfold runOps
+    exact Pointwise.cons hr (ih (fun o' ho' => hwf o' (by simp [ho'])) _ (c18_rearmed hw hr))
+
+/-- **Exactly once per awaited operation**, for any number of successive operations on one helper object and every
+combination of timings: each operation that has finished and is resolved ran its completion exactly once, showed its
+callback exactly that operation's outcome, delivered exactly `convRes` of that operation's outcome to that operation's
+outer future, and released what it allocated. -/
+theorem c18_once_per_operation (ops : List OpRun) (hwf : ∀ o ∈ ops, o.c.WF ∧ Pre o.c) :
+    Pointwise (fun o s => AllDone o.c s → s.slot = Slot.ready →
+        s.calls = 1 ∧ s.frees = s.allocs ∧
+        (o.c.adapter = Adapter.cbAwait ∨ o.c.adapter = Adapter.mkProm ∨ o.c.adapter = Adapter.callFn → s.saw = [s.payload.obs]) ∧
+        (o.c.adapter = Adapter.conv → s.outer = some (convRes o.c s.payload) ∧ s.outerSets = 1))
+      ops (runOps Slot.null ops) := by
+  have hr := c18_reuse_reach ops (fun o ho => (hwf o ho).1)
+  generalize runOps Slot.null ops = ss at hr
+  induction hr with
+  | nil => exact Pointwise.nil
+  | @cons o s os ss' h _ ih =>
+    refine Pointwise.cons ?_ (ih (fun o' ho' => hwf o' (by simp [ho'])))
+    intro hd hs
+    obtain ⟨hw, hp⟩ := hwf o (by simp)
+    have h1 := c18_once hw hp h hd hs
+    exact ⟨h1.1, (c18_helper_freed_at_quiescence hw h hd hs).1, h1.2.1,
+      fun ha => (c18_conv_outcome hw h ha).2.2 hd hs⟩
 
 /-! ## The pinned code: `future_conv` over a `future<void>` source ignored the source's failure
 
@@ -454,5 +504,15 @@ example :
     c.WF ∧ s.slot = Slot.node ∧ s.calls = 0 ∧ s.allocs = 1 ∧ s.frees = 0 ∧ ¬ AllDone c s := by
   refine ⟨⟨by decide, by decide⟩, by decide, by decide, by decide, by decide, ?_⟩
   rw [← allDone_iff]; decide
+
+/-- re-use: three operations on one `call_fn_future_awaiter` — already resolved, already resolved again (the window of
+the stale `_next` link), then parked and resumed by another thread; one callback with its own outcome each time -/
+example :
+    let o1 : OpRun := { c := { adapter := Adapter.callFn, n := 1, rk := fun _ => none, pre := some (RK.value 3) }, sched := [0, 0] }
+    let o2 : OpRun := { c := { adapter := Adapter.callFn, n := 1, rk := fun _ => none, pre := some (RK.exc 4) }, sched := [0, 0] }
+    let o3 : OpRun := { c := { adapter := Adapter.callFn, n := 2, rk := fun _ => some (RK.value 5) }, sched := [0, 1, 0, 1, 1] }
+    (runOps Slot.null [o1, o2, o3]).map (fun s => (s.calls, s.saw, s.slot, s.nxt)) =
+      [(1, [Obs.val 3], Slot.ready, Slot.null), (1, [Obs.exc 4], Slot.ready, Slot.null), (1, [Obs.val 5], Slot.ready, Slot.null)] := by
+  decide
 
 end Cocls.Callback
